@@ -110,14 +110,16 @@ def run_large(ctx, only=None):
             plans = []
             for si, (n, shape) in enumerate(LARGE):
                 for dtype in (("float64",) if ctx.quick else ("float64", "float32")):
-                    if ctx.quick and n == 16385 and (si + fi + gi) % 2 != 1:
-                        continue                      # quick: one of the two shapes with 16385 items
-                    split = (not ctx.quick) or (fi + gi) % (2 if n == 16385 else 4) == 0
+                    # quick: 2^16+1 items (> 2^14 and > 2^16, = 4 * 2^14 + 1) for EVERY entry point with first / last / random item and the
+                    # model on the last item; 2^14+1 items in two shapes with split-consistency for a quarter of the entry points each
+                    if ctx.quick and n == 16385 and (fi + gi) % 4 != si:
+                        continue
+                    split = (not ctx.quick) or n == 16385
                     plans.append((n, shape, dtype, split, False))
             # (28) both sides of the switch-overs of library kernels, float32, points far from the origin
             for k, n in enumerate(SWITCH):
-                if ctx.quick and (k + fi + gi) % 4 != 0:
-                    continue
+                if ctx.quick and (k // 2 + fi + gi) % 4 != 0:
+                    continue                      # quick: one switch-over per entry point, always BOTH sides of it
                 plans.append((n, (n,), "float32", True, (k + fi) % 2 == 0))
             for n, shape, dtype, split, far in plans:
                 case = {"stream": "large", "type": g, "read": name, "dtype": dtype, "items": n, "shape": list(shape), "far": far}
@@ -161,7 +163,7 @@ def run_large(ctx, only=None):
                                                              f"concatenation of the pieces [:{a_}] and [{a_}:]")
                                 break
                     # the model on a sample that contains the last item
-                    if n >= 16385 and dtype == "float64":
+                    if n >= (65537 if ctx.quick else 16385) and dtype == "float64":
                         smp = [0, (104729 * (fi + 1)) % n, n - 1]
                         c3 = {"stream": "large", "prog": C.to_json(node), "ltypes": [list(t) for t in ltypes], "dtype": dtype,
                               "lshapes": [[3] for _ in ltypes], "bshape": [3], "root": list(C.node_type(node, ltypes)),
@@ -279,6 +281,8 @@ def run_subclasses(ctx, only=None):
                     ("RetrT", lambda X_, a_, p_: X_ + a_), ("AdjAct", lambda X_, a_, p_: X_.Adj(a_).Exp().Act(p_))]
             for name, fn in reads(P) + both:
                 if only is not None and only != (g, name):
+                    continue
+                if ctx.quick and dtype == "float32" and (len(name) + gi) % 2:
                     continue
                 case = {"stream": "subclass", "type": g, "read": name, "dtype": dtype}
                 try:
